@@ -50,11 +50,35 @@ impl<S: Bits> Bits for Deg<S> { fn bits(&self) -> Vec<u64> { self.0.bits() } }
 impl<S: Bits + BaseFloat> Bits for Basis2<S> { fn bits(&self) -> Vec<u64> { let m: Matrix2<S> = (*self).into(); m.bits() } }
 impl<S: Bits + BaseFloat> Bits for Basis3<S> { fn bits(&self) -> Vec<u64> { let m: Matrix3<S> = (*self).into(); m.bits() } }
 
+/// a tally restricted to the checks whose description starts with one of the given type names
+/// (empty = everything): C01/C03/C04/C12/C13 run the part of this file that concerns their own types
+pub struct FTally {
+    pub t: Tally,
+    pub only: Vec<String>,
+}
+impl FTally {
+    pub fn new(name: &'static str, only: &[String]) -> FTally {
+        FTally { t: Tally::new(name), only: only.to_vec() }
+    }
+    pub fn rec(&self, ok: bool, desc: impl FnOnce() -> String) {
+        if self.only.is_empty() {
+            self.t.rec(ok, desc);
+        } else {
+            let d = desc();
+            if self.only.iter().any(|p| d.starts_with(p.as_str())) {
+                self.t.rec(ok, || d);
+            }
+        }
+    }
+    pub fn print(&self) {
+        self.t.print()
+    }
+}
 pub struct Ctx {
-    pub forms: Tally,
-    pub left: Tally,
-    pub folds: Tally,
-    pub progs: Tally,
+    pub forms: FTally,
+    pub left: FTally,
+    pub folds: FTally,
+    pub progs: FTally,
     pub sites: std::collections::BTreeSet<String>,
 }
 fn same<T: Bits>(ctx: &mut Ctx, site: &str, base: &T, others: &[(&str, T)]) {
@@ -264,6 +288,42 @@ macro_rules! float_forms {
             }
             ang!(Rad);
             ang!(Deg);
+            if salt == 0 {
+                // `%` and `%=` with every sign combination and |lhs| on both sides of |rhs|
+                macro_rules! ang_rem {
+                    ($A:ident) => {{
+                        for (p, q) in [(-450.0, 360.0), (450.0, 360.0), (-7.0, -3.0), (7.0, -3.0), (1.0, 360.0), (-1.0, 360.0), (360.0, 360.0), (-360.0, 360.0), (0.5, -0.25)] {
+                            let (x, y) = ($A(p as $S), $A(q as $S));
+                            bin4!($ctx, &format!("{}<{}> % {} ({} % {})", stringify!($A), stringify!($S), stringify!($A), p, q), x, y, %, %=);
+                            bin4!($ctx, &format!("{}<{}> - {} ({} - {})", stringify!($A), stringify!($S), stringify!($A), p, q), x, y, -, -=);
+                        }
+                    }};
+                }
+                ang_rem!(Rad);
+                ang_rem!(Deg);
+                // sums whose partial sums round: any re-association or compensation changes the bits
+                let h: Vec<$S> = vec![1e16 as $S, 0.1, 1.0, 1.0, 0.2, 1e-8 as $S, 0.3, 7.7, -3.3, 1e-3 as $S, 5e7 as $S, 0.7];
+                macro_rules! hard_sum {
+                    ($name:expr, $zero:expr, $mk:expr) => {{
+                        let l = vec![$mk(0), $mk(1), $mk(2), $mk(3), $mk(4)];
+                        let fs = l.iter().fold($zero, |acc, z| acc + *z);
+                        let s1 = l.iter().sum();
+                        let s2 = l.clone().into_iter().sum();
+                        $ctx.folds.rec(fs.bits() == Bits::bits(&s1) && fs.bits() == Bits::bits(&s2) && { let _ = (&s1, &fs); true },
+                            || format!("{}<{}> Sum of rounding-sensitive terms: by-ref {:x?}, by-value {:x?}, left fold {:x?}", $name, stringify!($S), Bits::bits(&s1), Bits::bits(&s2), fs.bits()));
+                        // make the two sums the same type as the fold
+                        let _: &[_] = &[s1, s2, fs];
+                    }};
+                }
+                hard_sum!("Vector1", Vector1::<$S>::zero(), |i: usize| Vector1::new(h[i]));
+                hard_sum!("Vector2", Vector2::<$S>::zero(), |i: usize| Vector2::new(h[i], h[i + 5]));
+                hard_sum!("Vector3", Vector3::<$S>::zero(), |i: usize| Vector3::new(h[i], h[i + 3], h[i + 6]));
+                hard_sum!("Vector4", Vector4::<$S>::zero(), |i: usize| Vector4::new(h[i], h[i + 2], h[i + 4], h[i + 6]));
+                hard_sum!("Quaternion", Quaternion::<$S>::zero(), |i: usize| Quaternion::new(h[i], h[i + 2], h[i + 4], h[i + 6]));
+                hard_sum!("Matrix2", Matrix2::<$S>::zero(), |i: usize| Matrix2::new(h[i], h[i + 2], h[i + 4], h[i + 6]));
+                hard_sum!("Rad", Rad::<$S>::zero(), |i: usize| Rad(h[i]));
+                hard_sum!("Deg", Deg::<$S>::zero(), |i: usize| Deg(h[i + 1]));
+            }
             // bases
             let (b2a, b2b): (Basis2<$S>, Basis2<$S>) = (Rotation2::from_angle(Rad(a[0] * 0.25)), Rotation2::from_angle(Rad(b[1] * 0.125)));
             bin4!($ctx, &format!("Basis2<{}> * Basis2", stringify!($S)), b2a, b2b, *);
@@ -328,9 +388,9 @@ fn programs(ctx: &mut Ctx, n: u64, seed: u64) {
     }
 }
 
-pub fn c17(n_programs: u64, seed: u64) {
-    let mut ctx = Ctx { forms: Tally::new("c17.operand_forms_identical"), left: Tally::new("c17.scalar_on_the_left"),
-                        folds: Tally::new("c17.sum_product_are_left_folds"), progs: Tally::new("c17.straight_line_programs"),
+pub fn c17(n_programs: u64, seed: u64, only: &[String]) {
+    let mut ctx = Ctx { forms: FTally::new("c17.operand_forms_identical", only), left: FTally::new("c17.scalar_on_the_left", only),
+                        folds: FTally::new("c17.sum_product_are_left_folds", only), progs: FTally::new("c17.straight_line_programs", only),
                         sites: Default::default() };
     vector_forms!(&mut ctx, f64, |i| i as f64, "f64");
     vector_forms!(&mut ctx, f32, |i| i as f32, "f32");
@@ -351,13 +411,17 @@ pub fn c17(n_programs: u64, seed: u64) {
     left_scalar!(&mut ctx, isize, |i| i as isize);
     left_scalar!(&mut ctx, f32, |i| i as f32 + 0.5);
     left_scalar!(&mut ctx, f64, |i| i as f64 + 0.25);
-    programs(&mut ctx, n_programs, seed);
+    if only.is_empty() {
+        programs(&mut ctx, n_programs, seed);
+    }
     ctx.forms.print();
     ctx.left.print();
     ctx.folds.print();
     ctx.progs.print();
     println!("info c17.operator_sites_exercised={}", ctx.sites.len());
-    for s in ctx.sites.iter() {
-        println!("site {}", s);
+    if only.is_empty() {
+        for s in ctx.sites.iter() {
+            println!("site {}", s);
+        }
     }
 }
